@@ -16,7 +16,7 @@ theorem re_dict__insert_expression :
     regexesOf "dict.py" "_insert_expression" = ["search:EXPRESSION\\d{6}", "search:\\d{6}"] := rfl
 
 theorem re_formatter_Formatter_format_string :
-    regexesOf "formatter.py" "Formatter.format_string" = ["search:[$]", "search:^\\$\\w[\\w\\[\\]]*$", "search:[\\\"']", "search:[\\s:/\\\\;,{}()<>\\[\\]]|^#include"] := rfl
+    regexesOf "formatter.py" "Formatter.format_string" = ["search:[$]", "search:^\\$\\w[\\w\\[\\]]*$", "search:[\\\"']", "search:[\\s:/\\\\;,{}()<>\\[\\]]|^#(include|$)"] := rfl
 
 theorem re_formatter_NativeFormatter_format_string_with_nested_string :
     regexesOf "formatter.py" "NativeFormatter.format_string_with_nested_string" = ["search:\"", "search:'"] := rfl
